@@ -1,6 +1,7 @@
 import MxlVerif.Model.C07
 import MxlVerif.Lemmas.C07MainV
 import MxlVerif.Lemmas.C07Witness
+import MxlVerif.Lemmas.C07Expr
 import MxlVerif.Lemmas.C07Free
 namespace Mxl.C07
 
@@ -71,6 +72,35 @@ theorem C07_free_with_ia_parameter_refused (c : Content) (L : Lang) (free : List
     (hcc : createCache c = .ok cache) (hfree : free ≠ []) (hia : noIA c.pars = false) :
     genModel [] c L free = .error (.other "NotImplementedError") :=
   genModel_free_refused c L free hcc hfree hia
+
+/-- … in particular whenever a parameter `q` defined by an initial assignment depends on a requested free parameter —
+    directly, or through any chain of derived values and other initial assignments, or not at all: the refusal does
+    not look at what `q` reads (a guard that only looks at the direct arguments of `q` would emit a function that
+    ignores the free parameter's value inside `q`; seeded change C07-r4-1). -/
+theorem C07_free_refused_for_any_ia_parameter (c : Content) (L : Lang) (free : List Name) (cache : Cache)
+    (hcc : createCache c = .ok cache) (hfree : free ≠ []) (q : Name) (f : Fn) (hq : (q, Val.ia f) ∈ c.pars) :
+    genModel [] c L free = .error (.other "NotImplementedError") := by
+  apply genModel_free_refused c L free hcc hfree
+  cases hn : noIA c.pars with
+  | false => rfl
+  | true =>
+    simp only [noIA, List.all_eq_true] at hn
+    have := hn _ hq
+    simp at this
+
+/-- **Free parameters are inputs, not constants** (`for key in free_parameters: parameters.pop(key)`, every
+    parameter table with distinct names, every list of free parameters): after the loop no requested name is left
+    among the parameters that are written as constants, every other parameter is still there with its value, and
+    nothing is added; together with `C07_return_order` (`p.extra = free`): the requested names are the extra inputs,
+    in the requested order, after `time` and the state vector (`runSLP`). -/
+theorem C07_free_parameters_popped (free : List Name) (m m' : List (Name × Rat)) (h : popAll m free = .ok m') :
+    (∀ k ∈ free, k ∉ omKeys m') ∧ (∀ kv ∈ m', kv ∈ m) ∧ (∀ kv ∈ m, kv.1 ∉ free → kv ∈ m') :=
+  popAll_spec free m m' h
+
+/-- a requested free parameter that is not a (plain or initial-assignment) parameter of the model: KeyError, no code -/
+theorem C07_free_parameter_unknown (free : List Name) (m : List (Name × Rat)) (h : ∃ k ∈ free, k ∉ omKeys m) :
+    ∃ k, popAll m free = .error (.keyError k) :=
+  popAll_missing free m h
 
 example : freeOkB wOk ["k"] [5] = true
     ∧ resEq (genRun [] wOk .ts ["k"] 1 [3, 5] [5]) (callRhs (setPars wOk ["k"] [5]) 1 [3, 5]) = true
@@ -171,5 +201,48 @@ theorem C07_raises_on_untranslatable (bad : List Name) (c : Content) (L : Lang) 
   genModel_raises bad c L hcc hn hb hdef
 
 example : isValueError (genModel ["d1"] wOk .ts []) = true := by decide +kernel
+
+/-! ### the expression layer: text written by precedence is read back with the same value -/
+
+open Mxl.C07Expr in
+/-- **Printed text has the expression's value — every expression, every environment** (numbers, names, unary minus,
+    `+ - * /`, and Python's `%` written by the repository's `_print_Mod` / `_mod_operands`: `(a % b)` with every operand
+    that is not a single name or number in parentheses of its own): the tokens a printer writes that parenthesises an operand iff it binds less tightly than its position
+    requires (the policy of sympy's code printers; right operands strictly) are read by a left-associative
+    recursive-descent reader (sums of products of signed atoms; unary minus binds tighter than `*` `/`) as exactly the
+    value of the expression — also when there is none (unknown name, division by zero). -/
+theorem C07_expr_text_value (env : C07Expr.Env) (e : C07Expr.E) : evalToks env e.print = e.eval env :=
+  evalToks_print_eq env e
+
+open Mxl.C07Expr in
+/-- **Printed text is unambiguous**: the reader that builds the tree returns exactly the printed expression -/
+theorem C07_expr_text_unambiguous (e : C07Expr.E) : parseToks e.print = some e :=
+  parseToks_print e
+
+open Mxl.C07Expr in
+/-- the value reader is the tree reader followed by evaluation, on *every* token stream (also ill-formed ones and ones
+    with redundant parentheses, as the Rust printer writes them) -/
+theorem C07_expr_reader_is_parser (env : C07Expr.Env) (ts : List C07Expr.Tok) :
+    evalToks env ts = (parseToks ts).bind (C07Expr.E.eval env) :=
+  evalToks_eq_parse env ts
+
+open Mxl.C07Expr in
+/-- the policy on small trees: `(x + y)*z`, `x - (y - z)`, `x/(y*z)`, `-(x + y)`, `-x*y`, `x*-y`, `x - y - z`, and with
+    a remainder: `((x + y) % z)`, `y*((x % z))` (sympy adds the outer pair around a factor), `y + (x % z)` -/
+example :
+    (C07Expr.E.mul (.add (.var "x") (.var "y")) (.var "z")).print = [.lp, .id "x", .plus, .id "y", .rp, .star, .id "z"]
+    ∧ (C07Expr.E.sub (.var "x") (.sub (.var "y") (.var "z"))).print = [.id "x", .minus, .lp, .id "y", .minus, .id "z", .rp]
+    ∧ (C07Expr.E.div (.var "x") (.mul (.var "y") (.var "z"))).print = [.id "x", .slash, .lp, .id "y", .star, .id "z", .rp]
+    ∧ (C07Expr.E.neg (.add (.var "x") (.var "y"))).print = [.minus, .lp, .id "x", .plus, .id "y", .rp]
+    ∧ (C07Expr.E.mul (.neg (.var "x")) (.var "y")).print = [.minus, .id "x", .star, .id "y"]
+    ∧ (C07Expr.E.mul (.var "x") (.neg (.var "y"))).print = [.id "x", .star, .minus, .id "y"]
+    ∧ (C07Expr.E.sub (.sub (.var "x") (.var "y")) (.var "z")).print = [.id "x", .minus, .id "y", .minus, .id "z"]
+    ∧ (C07Expr.E.mod (.add (.var "x") (.var "y")) (.var "z")).print
+        = [.lp, .lp, .id "x", .plus, .id "y", .rp, .pct, .id "z", .rp]
+    ∧ (C07Expr.E.mul (.var "y") (.mod (.var "x") (.var "z"))).print
+        = [.id "y", .star, .lp, .lp, .id "x", .pct, .id "z", .rp, .rp]
+    ∧ (C07Expr.E.add (.var "y") (.mod (.var "x") (.var "z"))).print
+        = [.id "y", .plus, .lp, .id "x", .pct, .id "z", .rp] := by
+  simp [C07Expr.E.print, C07Expr.pp_def, C07Expr.E.prec]
 
 end Mxl.C07
